@@ -24,7 +24,11 @@ def esc_char(rng, c, allow_simple=True, hexonly=False):
         h = '%x' % ord(c)
         if rng.random() < 0.3:
             h = h.upper()
-        k = rng.randrange(4)
+        k = rng.randrange(5)
+        if k == 4:
+            # directly followed by a character that is Unicode white space but a plain name character in CSS
+            w = pick(rng, ['\xa0', '\x85', '\u2028', '\u3000', '\u2003'])
+            return '\\' + h.rjust(pick(rng, [len(h), 6]), '0') + w, c + w, False
         if k == 0:
             h = h.rjust(6, '0')
             return '\\' + h + pick(rng, [' ', '\n', '\t']), c, False    # six digits; one following blank is eaten
